@@ -70,7 +70,7 @@ class Script(B.History):
         self.refs.append(ref)
         self.impl.append(B._observe(run, self.g))
 
-    def q(self, cobj, robj, tag, tamper=None, ref=False, call="pos"):
+    def q(self, cobj, robj, tag, tamper=None, ref=False, call="pos", ctext=None, rtext=None, pre_text=None):
         """`lg = g.get_localgrid(cobj, robj)`; `tamper = (callable(g), text)` runs first (the caller's edits of
         the local grid it holds); `ref=True`: attach the exact reference answer."""
         cs = np.asarray(cobj)
@@ -78,7 +78,12 @@ class Script(B.History):
         rf = float(robj)
         tok = ("q s " + f2b(float(csf)) if cs.ndim == 0 else "q v " + fvec(csf)) + " " + f2b(rf)
         LG = self.M["basegrid"].LocalGrid
-        text = f"lg = g.get_localgrid({B._descr(cobj)}, {B._descr(robj)})"
+        # (`ctext` / `rtext`: the argument is a named buffer of the caller defined by an earlier line; `pre_text`: what the
+        #  caller did — already done by the generator — right before this call)
+        ctext, rtext = ctext or B._descr(cobj), rtext or B._descr(robj)
+        text = f"lg = g.get_localgrid({ctext}, {rtext})"
+        if pre_text:
+            text = pre_text + "\n" + text
         if call != "pos":
             # (class 15: the same call spelled with keywords; the replay text stays positional)
             text += {"kw": "  # called as get_localgrid(center=…, radius=…)", "kw-swapped": "  # called as get_localgrid(radius=…, center=…)",
@@ -108,7 +113,7 @@ class Script(B.History):
             if not np.array_equal(np.asarray(lg.center), cs):
                 return "wrong-center"
             return B._canon_local(lg)
-        self._push(tok, text, "query:" + tag, run, want, qargs=(B._descr(cobj), B._descr(robj)))
+        self._push(tok, text, "query:" + tag, run, want, qargs=(ctext, rtext))
 
     def sp(self, new, tag, same_obj=False):
         new = np.asarray(new)
@@ -138,7 +143,7 @@ class Script(B.History):
             return "D"
         self._push(tok, f"g.weights = {B._descr(new)}", "setweights:" + tag, run)
 
-    def gi(self, idx, tok, tag, expect=None):
+    def gi(self, idx, tok, tag, expect=None, itext=None, pre_text=None):
         kind = self.kind
 
         def run(g, idx=idx):
@@ -149,7 +154,7 @@ class Script(B.History):
             if kind == "oned" and sub.domain is not None:
                 dom = f"1 {f2b(sub.domain[0])} {f2b(sub.domain[1])}"
             return f"G {B.MODEL_CLS[kind]} {B._mat(sub.points)} {fvec(sub.weights)} {dom}"
-        self._push(tok, f"g[{B._descr(idx)}]", "getitem:" + tag, run)
+        self._push(tok, (pre_text + "\n" if pre_text else "") + f"g[{itext or B._descr(idx)}]", "getitem:" + tag, run)
 
 
 def _rows(g):
